@@ -22,11 +22,21 @@ META = {
             "argument mapping. Gate half: gate_matches_spec (kernel-decided) — the set of option/model enumerators, enable flags, "
             "collision pairs, contact-sensor semantics and remaining NotImplementedError sites extracted from _put_option / "
             "_put_model_jax / _make_data_jax / types.py / collision_driver.py equals the table transcribed from doc/mjx.rst "
-            "(feature parity table, footnotes 2 and 3) up to five deviations listed one by one with their reason.",
+            "(feature parity table, footnotes 2 and 3) up to five deviations listed one by one with their reason. Constraint-parameter half: "
+            "mjx_kbi_eq_c — stiffness, damping and impedance of a constraint row: _kbi of mjx/_src/constraint.py (hand model mjxKbi, compared with the real "
+            "function on Float) and the K, B, I that getsolparam / getimpedance / mj_makeImpedance write to efc_KBIP (hand model cKbi, compared with the real C "
+            "engine through a one-equality model) are proved to be the same real function for either REFSAFE setting, every time step, solref in the standard "
+            "or the direct format, every solimp with d0 <= dwidth and width > mjMINVAL, any midpoint / power / position (the two guarded denominators of the "
+            "standard format not below mjMINVAL); outside these hypotheses the two sources differ (three recorded findings, each with a directed case).",
     "note": "Everything else of the property — the whole pipeline (kinematics, inertia, bias and passive forces, actuation, contacts, "
             "constraint rows, solver, sensors, integrators) — is NOT claimed by any theorem: it is examined by the oracle on the real "
             "code only (x64 CPU; models restricted to MJX's feature set with analytic colliders; states produced by simulating in C; "
-            "tolerance 1e-6 relative, solver tolerance tightened on both sides). Proofs are over the reals. The mujoco wheel of /venv "
+            "tolerance 1e-6 relative, solver tolerance tightened on both sides; solver parameters are sampled three ways: the real _kbi against the real C "
+            "engine on seeded arguments inside the theorem's hypotheses, a fixed-structure constraint-parameter family — joint/tendon limits, friction loss, a "
+            "joint equality, plane/sphere and sphere/sphere contacts with geom-parameter mixing, an explicit pair with solreffriction, both cones, REFSAFE "
+            "on/off — whose solref/solimp/margin/gap/solmix/friction/time step and state are redrawn per case, and randomised solref/solimp/solmix in two "
+            "thirds of the generic models). Proofs are over the reals; the power function of the impedance spline is a parameter of the models (Float.pow in "
+            "the driver, Real.rpow in the proof). The mujoco wheel of /venv "
             "is the MjSpec compiler and MjModel container on the MJX side; its compiled model is cross-checked array by array against "
             "the model the tree's compiler produces from the same description. Mesh / hfield / SDF / flex features cannot be built in "
             "this sandbox (qhull, MC stubs) and are outside the sampled set.",
@@ -285,7 +295,8 @@ class Pair:
                 st[k] = v
         return st
 
-    def compare(self, fields, tag, replay, tol=TOL_PIPE, key_prefix="c43:field:", ncon=0):
+    def compare(self, fields, tag, replay, tol=TOL_PIPE, key_prefix="c43:field:", ncon=0, mask=None):
+        """mask: {field: set of entry indices left out of the comparison}"""
         out = json.loads(self.h.ask("out " + " ".join(fields)))
         worst = None
         tol0 = tol
@@ -298,6 +309,9 @@ class Pair:
             if len(c) != len(m):
                 self.orc.fail(key_prefix + f + ":shape", "%s: %s has %d entries in C, %d in MJX" % (tag, f, len(c), len(m)), replay)
                 continue
+            if mask and mask.get(f):
+                c = [x for i, x in enumerate(c) if i not in mask[f]]
+                m = [x for i, x in enumerate(m) if i not in mask[f]]
             if not c:
                 continue
             d = reldev(c, m)
@@ -345,6 +359,51 @@ class Pair:
             b = self._par[b]
         return True
 
+    def static_acc_slots(self):
+        """sensordata slots of accelerometer / framelinacc sensors attached to a body without degrees of freedom up to the world (finding
+        c43:linear-acceleration-sensor-on-static-body: mj_objectAcceleration returns zero for such bodies, MJX reports -gravity)"""
+        def arr(n):
+            return [int(float(x)) for x in self.c.ask("numm " + n).split(":", 1)[1].split()]
+        st, so, si, sa, sd = arr("sensor_type"), arr("sensor_objtype"), arr("sensor_objid"), arr("sensor_adr"), arr("sensor_dim")
+        if not st:
+            return set()
+        par, dn = arr("body_parentid"), arr("body_dofnum")
+        owner = {E("mjOBJ_SITE"): "site_bodyid", E("mjOBJ_GEOM"): "geom_bodyid", E("mjOBJ_CAMERA"): "cam_bodyid"}
+        out = set()
+        for t, ot, oi, a, n in zip(st, so, si, sa, sd):
+            if t not in (E("mjSENS_ACCELEROMETER"), E("mjSENS_FRAMELINACC")):
+                continue
+            b = oi if ot in (E("mjOBJ_BODY"), E("mjOBJ_XBODY")) else (arr(owner[ot])[oi] if ot in owner else None)
+            if b is None:
+                continue
+            while b != 0 and not dn[b]:
+                b = par[b]
+            if b == 0:
+                out |= set(range(a, a + n))
+        return out
+
+    def steep_capsule_on_plane(self):
+        """a plane/capsule contact whose capsule axis is within ~30 degrees of the plane normal (finding c43:plane-capsule-steep-axis-frame:
+        the two engines then build different tangent axes, and a friction pyramid is not invariant under that rotation)"""
+        def arr(n):
+            return [int(float(x)) for x in self.c.ask("numm " + n).split(":", 1)[1].split()]
+        gt = arr("geom_type")
+        xm = self.cnum("geom_xmat")
+        co = self.c.ask("contactsfull 0")
+        for part in co.split(":", 1)[1].split("|"):
+            w = part.split()
+            if len(w) != 19:
+                continue
+            g1, g2 = int(w[0]), int(w[1])
+            if gt[g1] == E("mjGEOM_PLANE") and gt[g2] == E("mjGEOM_CAPSULE"):
+                n = [float(x) for x in w[9:12]]
+                ax = [xm[9 * g2 + 2], xm[9 * g2 + 5], xm[9 * g2 + 8]]
+                dn = sum(a * b for a, b in zip(n, ax))
+                prj = math.sqrt(max(0.0, sum((a - dn * b) ** 2 for a, b in zip(ax, n))))
+                if prj < 0.52:
+                    return True
+        return False
+
     def compare_contacts(self, replay):
         co = self.c.ask("contactsfull 0")
         cc = []
@@ -390,17 +449,21 @@ class Pair:
         """tol_static: bound for the rows' solver-independent quantities (pos - margin, aref, D) when it is tighter than tol"""
         tol = TOL_CONTACT if tol is None else tol
         e = json.loads(self.h.ask("out efc"))["efc"]
-        nefc = int(self.c.ask("scalar 0 nefc"))
+        # MJX keeps a fixed number of rows and zeroes the Jacobian of the inactive ones; rows whose Jacobian is zero are left out on BOTH sides (a
+        # friction row of a contact can have a zero Jacobian when the model lacks the degrees of freedom it would act on: C lists it, and on the MJX
+        # side it is indistinguishable from an inactive row)
+        nz = [int(x) for x in self.c.ask("efcnz 0").split(":", 1)[1].split()]
+        nefc = sum(nz)
         self.orc.n += 1
         if nefc != len(e["pos"]):
-            self.orc.fail("c43:efc:count", "C has %d constraint rows, MJX has %d active rows" % (nefc, len(e["pos"])), dict(replay))
+            self.orc.fail("c43:efc:count", "C has %d constraint rows with a non-zero Jacobian, MJX has %d" % (nefc, len(e["pos"])), dict(replay))
             return
         # efc_pos is compared as (efc_pos - efc_margin), the quantity that enters aref: for the friction rows of an elliptic
         # contact with a margin the C engine stores pos = margin = 0, MJX stores pos = margin = the contact margin
-        cpm = [a - b for a, b in zip(self.cnum("efc_pos") or [], self.cnum("efc_margin") or [])]
+        cpm = [a - b for a, b, k in zip(self.cnum("efc_pos") or [], self.cnum("efc_margin") or [], nz) if k]
         mpm = [a - b for a, b in zip(e["pos"], e["margin"])]
         for f, name in (("efc_pos-efc_margin", "pos"), ("efc_aref", "aref"), ("efc_D", "D"), ("efc_force", "force")):
-            c = cpm if name == "pos" else self.cnum(f)
+            c = cpm if name == "pos" else [x for x, k in zip(self.cnum(f) or [], nz) if k]
             if not c:
                 continue
             c, m = sorted(c), sorted(mpm if name == "pos" else e[name])
@@ -882,6 +945,10 @@ def run_agree(ctx, pair, orc, rng, quick, nmodels):
                      ("sensors", bool(mdl.sensors)), ("mocap", mdl.nmocap > 0)):
             if v:
                 hist[k] = hist.get(k, 0) + 1
+        mask = {"sensordata": pair.static_acc_slots()}
+        if mask["sensordata"]:
+            hist["models with a linear-acceleration sensor on a static body (slots masked: finding, directed case 16)"] = \
+                hist.get("models with a linear-acceleration sensor on a static body (slots masked: finding, directed case 16)", 0) + 1
         for si in range(2 if quick else 4):
             # a state the C engine itself reaches: perturb, simulate a few steps in C, read the state back
             st0 = mdl.random_state(rng, scale=0.15)
@@ -910,13 +977,16 @@ def run_agree(ctx, pair, orc, rng, quick, nmodels):
                 orc.fail("c43:mjx-forward-raises", "mjx.forward raised on a model put_model accepted (see harness stderr)", rps)
                 break
             ctx.count((mi, si, "forward"))
+            if pair.steep_capsule_on_plane():
+                hist["states skipped: capsule standing steeply on a plane (finding, directed case 15)"] = hist.get("states skipped: capsule standing steeply on a plane (finding, directed case 15)", 0) + 1
+                continue
             ncon = pair.compare_contacts(rps)
             fields = FWD_FIELDS
             if json.loads(pair.h.ask("out efc"))["efc"]["nefc_static"] == 0:
                 # no constraint rows at all: mjx.forward returns before sensor_acc (finding c43:acc-sensors-skipped-without-constraints,
                 # exercised by its directed case); the acceleration-stage sensors are not compared here
                 fields = [f for f in FWD_FIELDS if f != "sensordata"]
-            pair.compare(fields, "forward" + ("+contacts" if ncon else ""), rps, ncon=ncon)
+            pair.compare(fields, "forward" + ("+contacts" if ncon else ""), rps, ncon=ncon, mask=mask)
             pair.compare_M(rps)
             pair.compare_efc(rps)
             hist["states_with_contacts" if ncon else "states_without_contacts"] = hist.get("states_with_contacts" if ncon else "states_without_contacts", 0) + 1
@@ -1237,6 +1307,48 @@ def run_directed(ctx, pair, orc):
                          {"model_description": L, "state": st, "c": c, "mjx": {"aref": e["aref"], "D": e["D"], "qacc": mq},
                           "xml": "<mujoco><compiler angle='radian'/><worldbody><body><joint axis='0 1 0' limited='true' range='-.5 .5' %s/>"
                                  "<geom size='.1' pos='.3 0 0' contype='0' conaffinity='0'/></body></worldbody></mujoco>" % xml_attr})
+    # 15. plane / capsule with the capsule axis within 30 degrees of the plane normal: different tangent axes of the contact frame
+    L = ["option tolerance 1e-14", "geom 1 0", "set 1 type %d" % E("mjGEOM_PLANE"), "set 1 size 5 5 0.1", "body 2 0", "set 2 pos 0 0 0.22",
+         "set 2 quat 0.984807753012208 0.12278780396897288 0.12278780396897288 0", "freejoint 3 2", "geom 4 2", "set 4 type %d" % E("mjGEOM_CAPSULE"), "set 4 size 0.05 0.2"]
+    co, ho = pair.load(L)
+    orc.n += 1
+    if pair.c_ok and ho.startswith("ok"):
+        st = {"qvel": [4.0, 1.0, 0.0, 0.0, 0.0, 0.0]}
+        pair.set_state(st)
+        pair.c.ask("forward 0")
+        r = pair.h.ask("forward", timeout=900)
+        cf = [float(x) for x in pair.c.ask("contactsfull 0").split(":", 1)[1].split("|")[0].split()[9:18]]
+        mc = [c for c in json.loads(pair.h.ask("out contacts"))["contacts"] if c["dist"] < c["includemargin"]] if r == "ok" else []
+        mf = mc[0]["frame"] if mc else None
+        c, m = pair.cnum("qacc"), (json.loads(pair.h.ask("out qacc"))["qacc"] if r == "ok" else None)
+        out.append({"case": "capsule tilted 20 degrees from the normal of the plane it stands on", "frame_c": cf, "frame_mjx": mf, "qacc_c": c, "qacc_mjx": m})
+        if m is None or mf is None or not reldev(c, m) <= TOL_CONTACT or max(abs(a - b) for a, b in zip(cf, mf)) > TOL_CONTACT:
+            orc.fail("c43:plane-capsule-steep-axis-frame",
+                     "a capsule tilted 20 degrees from the normal of the plane it penetrates, sliding at (4, 1, 0): contact frame %s in C, %s in MJX; qacc %s in C, %s in MJX. "
+                     "mjc_PlaneCapsule passes the capsule axis as tangent and mju_makeFrame keeps any y axis of norm >= 0.5 BEFORE projecting it on the contact plane; "
+                     "collision_primitive.plane_capsule falls back to the default axis when the PROJECTED axis is shorter than 0.5 (capsule within 30 degrees of the normal); "
+                     "the pyramidal friction cone is not invariant under this rotation of the tangent axes" % ([round(x, 4) for x in cf], mf and [round(x, 4) for x in mf], c, m),
+                     {"model_description": L, "state": st, "frame_c": cf, "frame_mjx": mf, "qacc_c": c, "qacc_mjx": m})
+    # 16. accelerometer / framelinacc on a body without degrees of freedom
+    L = ["body 1 0", "set 1 pos 0 0 1", "geom 2 1", "set 2 size 0.1", "set 2 contype 0", "set 2 conaffinity 0", "site 3 1", "name 3 s", "body 4 1", "set 4 pos 0.5 0 0",
+         "joint 5 4", "set 5 axis 0 1 0", "set 5 limited 1", "set 5 range -0.1 0.1", "geom 6 4", "set 6 size 0.1", "set 6 pos 0.2 0 0", "set 6 contype 0",
+         "set 6 conaffinity 0", "sensor 9", "set 9 type %d" % E("mjSENS_ACCELEROMETER"), "set 9 objtype %d" % E("mjOBJ_SITE"), "set 9 objname s",
+         "sensor 10", "set 10 type %d" % E("mjSENS_FRAMELINACC"), "set 10 objtype %d" % E("mjOBJ_SITE"), "set 10 objname s"]
+    co, ho = pair.load(L)
+    orc.n += 1
+    if pair.c_ok and ho.startswith("ok"):
+        st = {"qpos": [0.5]}
+        pair.set_state(st)
+        pair.c.ask("forward 0")
+        r = pair.h.ask("forward", timeout=900)
+        c, m = pair.cnum("sensordata"), (json.loads(pair.h.ask("out sensordata"))["sensordata"] if r == "ok" else None)
+        out.append({"case": "accelerometer and framelinacc on a static body", "sensordata_c": c, "sensordata_mjx": m})
+        if m is None or not reldev(c, m) <= TOL_PIPE:
+            orc.fail("c43:linear-acceleration-sensor-on-static-body",
+                     "an accelerometer and a framelinacc sensor on a site of a static body (its child hinge is at its limit, so constraint rows exist): C reports %s, MJX %s. "
+                     "mj_objectAcceleration returns zero for a body without degrees of freedom up to the world ('dof-less body (static or mocap): quick return'), "
+                     "sensor.sensor_acc of MJX transforms cacc = -gravity like for any other body" % (c, m),
+                     {"model_description": L, "state": st, "sensordata_c": c, "sensordata_mjx": m})
     # 7. a model without any degree of freedom
     L = ["geom 1 0", "set 1 type 0", "set 1 size 5 5 0.1", "body 2 0", "set 2 pos 0 0 1", "geom 3 2", "set 3 size 0.1"]
     co, ho = pair.load(L)
@@ -1293,7 +1405,9 @@ def _run(ctx, procs):
     tm = ctx.extra.setdefault("timing_s", {})
     ctx.rule = ("kernels: seeded inputs per mapped function inside the stated domain (unit quaternions where required); models: gen/models.py "
                 "descriptions restricted to MJX's feature set with analytic colliders (plane/sphere/capsule), every integrator/solver/cone MJX "
-                "offers, actuators incl. muscles, fixed and spatial tendons, equalities, sensors, mocap; states reached by simulating in C; "
+                "offers, actuators incl. muscles, fixed and spatial tendons, equalities, sensors, mocap, solver parameters (solref in both formats, solimp, "
+                "solmix, REFSAFE) randomised in 2 of 3 models; states reached by simulating in C; K/B/I arguments: format x REFSAFE x solimp shape x position "
+                "classes (histogram in kbi_input_histogram); constraint-parameter family: parameters and states redrawn on a fixed structure per (cone, REFSAFE); "
                 "gate: single-feature variants of a base model; a case is distinct by (model, state, op); non-trivial = forward/step on nv > 0")
     ctx.checker_cmd = ("cd /verif && python3 translate/regen_all.py && cd lean && lake build MjProof.Props.C43 MjProof.Props.C43Gate "
                        "&& lake env lean Audit/C43.lean")
@@ -1374,7 +1488,8 @@ def _run(ctx, procs):
         "the generic C-vs-MJX comparison keeps out the situations of the confirmed findings (each is exercised on every run by its own directed "
         "case with a stable key): implicitfast with free joints or force-limited actuators, elliptic cone without frictional contacts, "
         "connect/weld equalities, bodies attached to a mocap body, colliding geoms on mocap bodies, models without degrees of freedom, "
-        "acceleration-stage sensors in models without constraint rows; (world/static/mocap, world/static/mocap) contact candidates that MJX "
+        "acceleration-stage sensors in models without constraint rows, accelerometer/framelinacc slots of sensors on static bodies, states with a capsule "
+        "standing within ~30 degrees of the normal of a plane it touches, solimp with d0 > dwidth or width <= mjMINVAL and mixed-sign solref (never drawn); (world/static/mocap, world/static/mocap) contact candidates that MJX "
         "lists and the C engine filters are not counted as contact-list differences; efc_pos is compared as efc_pos - efc_margin; contact "
         "geometry and the quantities downstream of it use the tolerance %g (closest_segment_point regularises its denominator with 1e-6), "
         "everything else %g" % (TOL_CONTACT, TOL_PIPE))
